@@ -97,6 +97,14 @@ static void mode_shift() {
         bool ykick = (c / 4) % 2;
         int flavour = (int)r.range(0, 3);
         uint32_t nb = (c % 3 == 2) ? (uint32_t)r.range(2, 3) : 1;    // a third of the cases: trains (per-bunch displacement fields)
+        // scale: one case in sixteen is large in one dimension (more than 256 / 512 / 1024 cells per axis; more than 16 / 256 bunches);
+        // such a case samples a dozen displacements (both extremes included) instead of all that fit
+        bool scale = ((c / 8) % 16 == 5);
+        if (scale) {
+            static const uint32_t big_n[] = {257, 300, 513, 1030}; static const uint32_t big_nb[] = {17, 40, 257, 300};
+            if (r.chance(0.5)) { n = big_n[r.range(0, 3)]; nb = (uint32_t)r.range(1, 2); } else { nb = big_nb[r.range(0, 3)]; n = (uint32_t)r.range(8, 16); }
+            M.ev("scale_cases");
+        }
         {
             std::ostringstream d; d << "shift n=" << n << " nb=" << nb << " it=" << it << " axis=" << (ykick ? "y" : "x") << " flavour=" << flavour;
             M.begin_case(c, d.str());
@@ -113,11 +121,14 @@ static void mode_shift() {
         const int dmin = -(int)(n / 2), dmax = (int)n - (int)(n / 2) - 1;
         // every uniform displacement that fits, then per-row (and per-bunch) random displacements
         int nrounds = (dmax - dmin + 1) + 4;
+        std::vector<int> uniform_d;
+        if (scale && n > 64) { uniform_d = {dmin, dmin + 1, -1, 0, 1, dmax - 1, dmax}; for (int k = 0; k < 5; k++) uniform_d.push_back((int)r.range(dmin, dmax)); nrounds = (int)uniform_d.size() + 3; }
         for (int round = 0; round < nrounds; round++) {
             std::vector<float> off((size_t)n * nb);
             std::vector<int> dd((size_t)n * nb);
             for (uint32_t b = 0; b < nb; b++) for (uint32_t k = 0; k < n; k++) {
                 int v = (round <= dmax - dmin) ? dmin + round : (int)r.range(dmin, dmax);
+                if (!uniform_d.empty()) v = (round < (int)uniform_d.size()) ? uniform_d[round] : (int)r.range(dmin, dmax);
                 // the x kick has one field for all bunches (KickMap reads the first block); the y kick one per bunch
                 if (!ykick && b > 0) v = dd[k];
                 dd[(size_t)b * n + k] = v; off[(size_t)b * n + k] = (float)v;
@@ -158,6 +169,11 @@ static void mode_poly() {
         bool ykick = (c / 4) % 2;
         bool exactoff = (c / 8) % 2 == 0;    // offsets on a 2^-16 lattice: n/2+offset is exact in float
         uint32_t nb = (c % 3 == 2) ? (uint32_t)r.range(2, 3) : 1;   // a third of the cases: trains with per-bunch fields
+        if ((c / 8) % 16 == 5) {     // scale (see the shift part)
+            static const uint32_t big_n[] = {257, 300, 513, 1030}; static const uint32_t big_nb[] = {17, 40, 257, 300};
+            if (r.chance(0.5)) { n = big_n[r.range(0, 3)]; nb = (uint32_t)r.range(1, 2); } else { nb = big_nb[r.range(0, 3)]; n = (uint32_t)r.range(8, 16); }
+            M.ev("scale_cases");
+        }
         {
             std::ostringstream d; d << "poly n=" << n << " nb=" << nb << " it=" << it << " axis=" << (ykick ? "y" : "x") << " exactoff=" << exactoff;
             M.begin_case(c, d.str());
